@@ -838,6 +838,646 @@ def run_field_part(ctx, R, B):
     ctx.add("cases_stepped_around_confined_known_fatal", fp.stepped)
 
 
+
+# ===================================================================================== curves
+def curve_ids(R):
+    """identifiers of relic_eb.h accepted by eb_param_set() in this build"""
+    out = []
+    for nm, v in sorted(R.EH.get("relic_eb.h", {}).items(), key=lambda kv: kv[1]):
+        r = R.call("eb_param_set", v)
+        if not r.caught and R.L.eb_param_get() == v:
+            out.append((nm, v))
+    return out
+
+
+class Cv(object):
+    """model-side view of the active binary curve; points are descriptors (s, t) = [s]G + [t]T, T of order h"""
+
+    def __init__(self, R, B, name, ident):
+        self.name, self.ident = name, ident
+        r = R.call("eb_param_set", ident)
+        if r.caught:
+            raise RuntimeError("eb_param_set(%s) failed" % name)
+        L = R.L
+        L.eb_curve_get_a.restype = ctypes.c_void_p
+        L.eb_curve_get_b.restype = ctypes.c_void_p
+        self.F = F = GF2m(read_poly(R, B))
+        F.trace_mask()
+        self.a = B.fb_get(L.eb_curve_get_a())
+        self.b = B.fb_get(L.eb_curve_get_b())
+        n, h = R.bn_new(), R.bn_new()
+        R.call("eb_curve_get_ord", n)
+        R.call("eb_curve_get_cof", h)
+        self.n, self.h = R.bn_val(n), R.bn_val(h)
+        R.bn_free(n)
+        R.bn_free(h)
+        g = B.eb_new()
+        R.call("eb_curve_get_gen", g)
+        gx, gy, gz, gc = B.eb_get(g)
+        R.free(g)
+        self.kbltz = bool(L.eb_curve_is_kbltz())
+        self.C = C = BinCurve(F, self.a, self.b, self.n, self.h)
+        self.G = (gx, gy)
+        self.nbits = self.n.bit_length()
+        if gz != 1 or not C.on_curve(self.G) or C.mul(self.n, self.G) is not None or not is_probable_prime(self.n):
+            raise RuntimeError("%s: generator/order reported by the library are inconsistent" % name)
+        # the 2-primary torsion is cyclic of order h: build a generator by repeated halving of the point of order 2
+        T = C.order2()
+        o = 2
+        while o < self.h:
+            hs = C.halves(T)
+            if not hs:
+                raise RuntimeError("%s: cofactor %d but no point of order %d" % (name, self.h, 2 * o))
+            T = hs[0]
+            o *= 2
+        if self.h & (self.h - 1) or C.mul(self.h, T) is not None or C.mul(self.h // 2, T) is None:
+            raise RuntimeError("%s: unexpected torsion structure" % name)
+        self.tors = [None]
+        for _ in range(self.h - 1):
+            self.tors.append(C.add(self.tors[-1], T))
+        self.T2 = self.tors[self.h // 2]
+        self.tbits = self.nbits + 1
+        C.fixed_base(self.G, self.tbits)
+        self._aff = {}
+
+    def aff(self, d):
+        """affine coordinates of the descriptor (s, t)"""
+        s, t = d[0] % self.n, d[1] % self.h
+        v = self._aff.get((s, t))
+        if v is None:
+            v = self.C.add(self.C.mul_fixed(s, self.G, self.tbits) if s else None, self.tors[t])
+            if len(self._aff) < 4000:
+                self._aff[(s, t)] = v if v is not None else 0
+        elif v == 0:
+            v = None
+        return v
+
+    def dmul(self, k, d):
+        return ((k * d[0]) % self.n, (k * d[1]) % self.h)
+
+    def dadd(self, d, e):
+        return ((d[0] + e[0]) % self.n, (d[1] + e[1]) % self.h)
+
+    def dneg(self, d):
+        return ((-d[0]) % self.n, (-d[1]) % self.h)
+
+    def pcls(self, d):
+        s, t = d[0] % self.n, d[1] % self.h
+        if s == 0:
+            if t == 0:
+                return "inf"
+            return "o2" if 2 * t == self.h else "o4"
+        return "sub" if t == 0 else "out"
+
+    # scalar classes: residue tag + sign + range
+    def kcls(self, k):
+        if k == 0:
+            return "z"
+        a = -k if k < 0 else k
+        bl = a.bit_length()
+        if a < self.n:
+            rg = "in"
+        elif bl <= self.nbits:
+            rg = "ge"
+        elif bl <= self.F.m:
+            rg = "wide"
+        else:
+            rg = "long"
+        tag = "u" if a == 1 else ("r0" if a % self.n == 0 else "r")
+        return tag + ("-" if k < 0 else "+") + rg
+
+    def in_range(self, k):
+        return 0 <= k < self.n
+
+
+def dshow(d):
+    return [hx(d[0]), d[1]]
+
+
+class PointIO(object):
+    """raw point writer/reader shared by the curve and mul parts"""
+
+    def __init__(self, ctx, R, B):
+        self.ctx, self.R, self.B, self.rng = ctx, R, B, ctx.rng
+        self.EQ, self.NE = R.K["RLC_EQ"], R.K["RLC_NE"]
+
+    def put(self, cv, ptr, P, rep):
+        """rep: B affine | P Lopez-Dahab random Z | P1 Lopez-Dahab Z = 1 | H lambda coordinates |
+        for the identity: B canonical, P (0,0,0,PROJC), J (junk, junk, 0, PROJC)"""
+        B, F, rng = self.B, cv.F, self.rng
+        if P is None:
+            if rep == "J":
+                B.eb_put(ptr, rng.getrandbits(B.m) | 1, rng.getrandbits(B.m) | 1, 0, B.PROJC)
+            else:
+                B.eb_put(ptr, 0, 0, 0, B.PROJC if rep in ("P", "P1") else B.BASIC)
+            return
+        x, y = P
+        if rep == "B":
+            B.eb_put(ptr, x, y, 1, B.BASIC)
+        elif rep == "P1":
+            B.eb_put(ptr, x, y, 1, B.PROJC)
+        elif rep == "P":
+            z = rng.getrandbits(B.m) or 1
+            if rng.random() < 0.1:
+                z = rng.choice([1 << (B.m - 1), B.mask, 2, 3])
+            B.eb_put(ptr, F.mul(x, z), F.mul(y, F.sqr(z)), z, B.PROJC)
+        elif rep == "H":
+            if x == 0:
+                raise ValueError("lambda coordinates need x != 0")
+            B.eb_put(ptr, x, x ^ F.mul(y, F.inv(x)), 1, B.HALVE)
+        else:
+            raise ValueError(rep)
+
+    def get(self, cv, ptr):
+        """-> (point or None, coord, canonical, raw)"""
+        B = self.B
+        x, y, z, co = B.eb_get(ptr)
+        canon = max(x, y, z) <= B.mask
+        if not canon:
+            return ("non-canonical",), co, False, (x, y, z)
+        if z == 0:
+            return None, co, True, (x, y, z)
+        if co == B.BASIC:
+            return (x, y), co, True, (x, y, z)
+        if co == B.PROJC:
+            return cv.C.from_ld(x, y, z), co, True, (x, y, z)
+        if co == B.HALVE:
+            return cv.C.from_lambda(x, y), co, True, (x, y, z)
+        return ("unknown-coord",), co, False, (x, y, z)
+
+    def expect(self, cv, ptr, exp, what="value", affine=False):
+        """compare the point stored at ptr with the model point exp (as group elements)"""
+        ctx = self.ctx
+        got, co, canon, raw = self.get(cv, ptr)
+        ok = canon and got == exp
+        ctx.check(ok, ctx.cur_key + "|" + what,
+                  None if ok else {"got": pshow(got), "exp": pshow(exp), "coord": co, "raw": [hx(v) for v in raw]})
+        if ok and affine and exp is not None:
+            ctx.check(co == self.B.BASIC and raw[2] == 1, ctx.cur_key + "|not-normalised",
+                      {"coord": co, "z": hx(raw[2])})
+        return ok
+
+
+def pshow(P):
+    if P is None:
+        return "O"
+    if len(P) == 1:
+        return P[0]
+    return [hx(P[0]), hx(P[1])]
+
+
+class CurvePart(PointIO):
+    def __init__(self, ctx, R, B):
+        PointIO.__init__(self, ctx, R, B)
+        self.p, self.q, self.r = B.eb_new(), B.eb_new(), B.eb_new()
+        self.fa, self.fc = B.fb_new(0), B.fb_new(0)
+        self.not_built = set()
+        self.hlv_other = 0
+        self.hlv_exact = 0
+
+    def has(self, fn):
+        if self.R.has(fn) or fn in WRAP:
+            return True
+        self.not_built.add(fn)
+        return False
+
+    def call(self, fn, *a):
+        return self.R.call(WRAP.get(fn, fn), *a)
+
+    def no_error(self, res):
+        return self.ctx.check(not res.caught, self.ctx.cur_key + "|unexpected-error", {"err": res.err})
+
+    # ------------------------------------------------------------------ point supply
+    def make_pool(self, cv):
+        rng = self.rng
+        n, h = cv.n, cv.h
+        pool = [(0, 0), (1, 0), (2, 0), (3, 0), (n - 1, 0), (n - 2, 0), ((n + 1) // 2, 0)]
+        pool += [(0, t) for t in range(1, h)]
+        pool += [(rng.randrange(1, n), 0) for _ in range(10)]
+        pool += [(rng.randrange(1, n), t) for t in range(1, h) for _ in range(2)]
+        pool += [(1, h // 2), (n - 1, h // 2)]
+        self.pool = pool
+
+    def pick(self, cv, kinds=None):
+        rng = self.rng
+        for _ in range(200):
+            c = rng.random()
+            if c < 0.06:
+                d = (0, 0)
+            elif c < 0.14:
+                d = (0, rng.randrange(1, cv.h))
+            elif c < 0.2:
+                d = (rng.randrange(1, cv.n), rng.randrange(cv.h))
+                self.pool[rng.randrange(7 + cv.h - 1, len(self.pool))] = d
+            else:
+                d = rng.choice(self.pool)
+            if kinds is None or cv.pcls(d) in kinds:
+                return d
+        return (1, 0)
+
+    def rep_for(self, cv, d, native, allow_h=False):
+        """a representation the routine claims to accept: affine or its native system"""
+        rng = self.rng
+        P = cv.aff(d)
+        if native == "B":
+            return "B"
+        if P is None:
+            return rng.choice(["B", "P", "J"])
+        c = ["B", "P", "P", "P1"]
+        if allow_h and P[0] != 0:
+            c.append("H")
+        return rng.choice(c)
+
+    @staticmethod
+    def repcls(*reps):
+        return "A" if all(r == "B" for r in reps) else ("H" if "H" in reps else "P")
+
+    # ------------------------------------------------------------------ operations
+    def op_neg(self, cv):
+        ctx, R, B, rng = self.ctx, self.R, self.B, self.rng
+        fn = rng.choice(["eb_neg_basic", "eb_neg_projc", "eb_neg"])
+        if not self.has(fn):
+            return
+        impl = impl_of(R, fn)
+        d = self.pick(cv)
+        rep = self.rep_for(cv, d, "B" if impl.endswith("basic") else "P")
+        alias = rng.randrange(2)
+        key = "%s|%s|%s|%s|alias%d" % (impl, cv.name, cv.pcls(d), self.repcls(rep), alias)
+        with Case(ctx, key, {"P": dshow(d), "rep": rep}, nontrivial=cv.pcls(d) != "inf") as go:
+            if go:
+                self.put(cv, self.p, cv.aff(d), rep)
+                B.eb_fill(self.r, R.poison)
+                out = self.p if alias else self.r
+                if self.no_error(self.call(fn, out, self.p)):
+                    self.expect(cv, out, cv.C.neg(cv.aff(d)))
+
+    def pair(self, cv):
+        """(d, e, relation) with the exceptional relations made frequent"""
+        rng = self.rng
+        d = self.pick(cv)
+        c = rng.random()
+        if c < 0.2:
+            return d, d, "eq"
+        if c < 0.4:
+            e = cv.dneg(d)
+            return d, e, ("eq" if e == (d[0] % cv.n, d[1] % cv.h) else "neg")
+        if c < 0.45:
+            # same x only when Q = +-P; differing in the torsion part
+            e = cv.dadd(d, (0, rng.randrange(1, cv.h)))
+        else:
+            e = self.pick(cv)
+        dn = (d[0] % cv.n, d[1] % cv.h)
+        en = (e[0] % cv.n, e[1] % cv.h)
+        if dn == en:
+            return d, e, "eq"
+        if cv.dneg(d) == en:
+            return d, e, "neg"
+        return d, e, "ne"
+
+    def paircls(self, cv, d, e, rel):
+        kinds = (cv.pcls(d), cv.pcls(e))
+        if "inf" in kinds:
+            rel = "inf"
+        for k in ("o2", "o4", "out"):
+            if k in kinds:
+                return rel + ":" + k
+        return rel + ":" + ("inf" if kinds == ("inf", "inf") else "sub")
+
+    def op_addsub(self, cv, sub=False):
+        ctx, R, B, rng = self.ctx, self.R, self.B, self.rng
+        base = "eb_sub" if sub else "eb_add"
+        fn = rng.choice([base + "_basic", base + "_projc", base])
+        if not self.has(fn):
+            return
+        impl = impl_of(R, fn)
+        native = "B" if impl.endswith("basic") else "P"
+        d, e, rel = self.pair(cv)
+        alias = rng.randrange(4)
+        rp = self.rep_for(cv, d, native)
+        rq = self.rep_for(cv, e, native)
+        if alias == 3:
+            e, rq, rel = d, rp, "eq"
+        P, Q = cv.aff(d), cv.aff(e)
+        exp = cv.C.sub(P, Q) if sub else cv.C.add(P, Q)
+        key = "%s|%s|%s|%s|alias%d" % (impl, cv.name, self.paircls(cv, d, e, rel), self.repcls(rp, rq), alias)
+        with Case(ctx, key, {"P": dshow(d), "Q": dshow(e), "reps": [rp, rq]},
+                  nontrivial=P is not None and Q is not None) as go:
+            if go:
+                self.put(cv, self.p, P, rp)
+                self.put(cv, self.q, Q, rq)
+                B.eb_fill(self.r, R.poison)
+                pq = self.p if alias == 3 else self.q
+                out = {1: self.p, 2: self.q}.get(alias, self.r)
+                rawp, rawq = B.eb_get(self.p), B.eb_get(self.q)
+                if self.no_error(self.call(fn, out, self.p, pq)):
+                    self.expect(cv, out, exp)
+                    if out != self.p:
+                        ctx.check(B.eb_get(self.p) == rawp, ctx.cur_key + "|input-modified")
+                    if out != self.q and alias != 3:
+                        ctx.check(B.eb_get(self.q) == rawq, ctx.cur_key + "|input-modified")
+
+    def op_dbl(self, cv):
+        ctx, R, B, rng = self.ctx, self.R, self.B, self.rng
+        fn = rng.choice(["eb_dbl_basic", "eb_dbl_projc", "eb_dbl"])
+        if not self.has(fn):
+            return
+        impl = impl_of(R, fn)
+        d = self.pick(cv)
+        rep = self.rep_for(cv, d, "B" if impl.endswith("basic") else "P")
+        alias = rng.randrange(2)
+        key = "%s|%s|%s|%s|alias%d" % (impl, cv.name, cv.pcls(d), self.repcls(rep), alias)
+        with Case(ctx, key, {"P": dshow(d), "rep": rep}, nontrivial=cv.pcls(d) != "inf") as go:
+            if go:
+                P = cv.aff(d)
+                self.put(cv, self.p, P, rep)
+                B.eb_fill(self.r, R.poison)
+                out = self.p if alias else self.r
+                if self.no_error(self.call(fn, out, self.p)):
+                    self.expect(cv, out, cv.C.dbl(P))
+
+    def op_hlv(self, cv):
+        """inputs Q in 2E given as Q = 2P; dbl(result) = Q everywhere, result = P where the half is unique in 2E"""
+        ctx, R, B, rng = self.ctx, self.R, self.B, self.rng
+        if not self.has("eb_hlv"):
+            return
+        d = self.pick(cv)
+        if rng.random() < 0.15:
+            # a half that is not in our descriptor form: any point of the curve through its abscissa
+            pts = []
+            while not pts:
+                pts = cv.C.lift_x(rng.getrandbits(B.m) or 1)
+            P = rng.choice(pts)
+            pc = "any"
+        else:
+            P = cv.aff(d)
+            pc = cv.pcls(d)
+        Q = cv.C.dbl(P)
+        rep = "B"
+        if Q is not None and Q[0] != 0 and rng.random() < 0.4:
+            rep = "H"
+        alias = rng.randrange(2)
+        qc = "inf" if Q is None else ("o2" if Q[0] == 0 else "2*" + pc)
+        key = "eb_hlv|%s|%s|%s|alias%d" % (cv.name, qc, self.repcls(rep), alias)
+        with Case(ctx, key, {"half": pshow(P), "rep": rep}, nontrivial=Q is not None) as go:
+            if go:
+                self.put(cv, self.p, Q, rep)
+                B.eb_fill(self.r, R.poison)
+                out = self.p if alias else self.r
+                if not self.no_error(self.call("eb_hlv", out, self.p)):
+                    return
+                got, co, canon, raw = self.get(cv, out)
+                bad = {"got": pshow(got), "coord": co, "raw": [hx(v) for v in raw]}
+                if not ctx.check(canon and (got is None or len(got) == 2), key + "|value", bad):
+                    return
+                ok = ctx.check(cv.C.on_curve(got) and cv.C.dbl(got) == Q, key + "|value", bad)
+                if ok and pc == "sub":
+                    # P of odd order: the canonical half.  Unique inside 2E only for cofactor 2.
+                    if cv.h == 2:
+                        ctx.check(got == P, key + "|not-the-odd-order-half", bad)
+                        self.hlv_exact += 1
+                    elif got == P:
+                        self.hlv_exact += 1
+                    else:
+                        self.hlv_other += 1
+
+    def op_frb(self, cv):
+        ctx, R, B, rng = self.ctx, self.R, self.B, self.rng
+        if not cv.kbltz or not self.has("eb_frb"):
+            return
+        d = self.pick(cv)
+        rep = self.rep_for(cv, d, "P", allow_h=True)
+        alias = rng.randrange(2)
+        key = "eb_frb|%s|%s|%s|alias%d" % (cv.name, cv.pcls(d), self.repcls(rep), alias)
+        with Case(ctx, key, {"P": dshow(d), "rep": rep}, nontrivial=cv.pcls(d) != "inf") as go:
+            if go:
+                P = cv.aff(d)
+                self.put(cv, self.p, P, rep)
+                B.eb_fill(self.r, R.poison)
+                out = self.p if alias else self.r
+                if self.no_error(self.call("eb_frb", out, self.p)):
+                    self.expect(cv, out, cv.C.frob(P))
+
+    def op_norm(self, cv):
+        ctx, R, B, rng = self.ctx, self.R, self.B, self.rng
+        d = self.pick(cv)
+        rep = self.rep_for(cv, d, "P", allow_h=True)
+        alias = rng.randrange(2)
+        key = "eb_norm|%s|%s|%s|alias%d" % (cv.name, cv.pcls(d), rep, alias)
+        with Case(ctx, key, {"P": dshow(d), "rep": rep}, nontrivial=cv.pcls(d) != "inf") as go:
+            if go:
+                P = cv.aff(d)
+                self.put(cv, self.p, P, rep)
+                B.eb_fill(self.r, R.poison)
+                out = self.p if alias else self.r
+                if self.no_error(self.call("eb_norm", out, self.p)):
+                    self.expect(cv, out, P, affine=True)
+
+    def op_norm_sim(self, cv):
+        ctx, R, B, rng = self.ctx, self.R, self.B, self.rng
+        n = rng.choice([1, 2, 3, 4, 8])
+        ds = [self.pick(cv) for _ in range(n)]
+        reps = [self.rep_for(cv, d, "P") for d in ds]
+        alias = rng.randrange(2)
+        kinds = set(cv.pcls(d) for d in ds)
+        infs = sorted(set(r for d, r in zip(ds, reps) if cv.pcls(d) == "inf"))
+        cls = ("inf-" + "".join(infs)) if infs else ("tors" if kinds & {"o2", "o4"} else "fin")
+        key = "eb_norm_sim|%s|%s|n%s|alias%d" % (cv.name, cls, "1" if n == 1 else ">1", alias)
+        with Case(ctx, key, {"P": [dshow(d) for d in ds], "reps": reps}, nontrivial=not infs) as go:
+            if go:
+                t = B.eb_new(n)
+                r = t if alias else B.eb_new(n)
+                try:
+                    for i in range(n):
+                        self.put(cv, t + i * B.ebsz, cv.aff(ds[i]), reps[i])
+                    if not alias:
+                        B.eb_fill(r, R.poison, n)
+                    if self.no_error(self.call("eb_norm_sim", r, t, n)):
+                        for i in range(n):
+                            if not self.expect(cv, r + i * B.ebsz, cv.aff(ds[i]), what="value", affine=True):
+                                break
+                finally:
+                    R.free(t)
+                    if r != t:
+                        R.free(r)
+
+    def op_cmp(self, cv):
+        ctx, R, B, rng = self.ctx, self.R, self.B, self.rng
+        d, e, rel = self.pair(cv)
+        rp = self.rep_for(cv, d, "P", allow_h=True)
+        rq = self.rep_for(cv, e, "P", allow_h=True)
+        key = "eb_cmp|%s|%s|%s" % (cv.name, self.paircls(cv, d, e, rel), self.repcls(rp, rq))
+        with Case(ctx, key, {"P": dshow(d), "Q": dshow(e), "reps": [rp, rq]}) as go:
+            if go:
+                P, Q = cv.aff(d), cv.aff(e)
+                self.put(cv, self.p, P, rp)
+                self.put(cv, self.q, Q, rq)
+                res = self.call("eb_cmp", self.p, self.q)
+                if self.no_error(res):
+                    exp = self.EQ if P == Q else self.NE
+                    ctx.check(res.i == exp, key + "|value", {"got": res.i, "exp": exp})
+
+    def op_on_curve(self, cv):
+        ctx, R, B, rng = self.ctx, self.R, self.B, self.rng
+        d = self.pick(cv)
+        P = cv.aff(d)
+        rep = self.rep_for(cv, d, "P", allow_h=True)
+        valid = True
+        c = rng.random()
+        if P is not None and c < 0.5:
+            valid = False
+            if c < 0.2:
+                P = (P[0], P[1] ^ (1 << rng.randrange(B.m)))
+            elif c < 0.35:
+                P = (P[0] ^ (1 << rng.randrange(B.m)), P[1])
+            else:
+                P = (rng.getrandbits(B.m), rng.getrandbits(B.m))
+            valid = cv.C.on_curve(P)
+            if P[0] == 0 and rep == "H":
+                rep = "B"
+        key = "eb_on_curve|%s|%s|%s" % (cv.name, ("valid:" + cv.pcls(d)) if valid else "invalid", rep)
+        with Case(ctx, key, {"P": pshow(P), "rep": rep}) as go:
+            if go:
+                self.put(cv, self.p, P, rep)
+                res = self.call("eb_on_curve", self.p)
+                if self.no_error(res):
+                    ctx.check(res.i == int(valid), key + "|value", {"got": res.i, "exp": int(valid)})
+
+    def op_misc(self, cv):
+        ctx, R, B, rng = self.ctx, self.R, self.B, self.rng
+        c = rng.randrange(7)
+        d = self.pick(cv)
+        P = cv.aff(d)
+        if c == 0:
+            rep = self.rep_for(cv, d, "P")
+            with Case(ctx, "eb_is_infty|%s|%s|%s" % (cv.name, cv.pcls(d), rep), {"P": dshow(d)}) as go:
+                if go:
+                    self.put(cv, self.p, P, rep)
+                    res = self.call("eb_is_infty", self.p)
+                    ctx.check(not res.caught and res.i == int(P is None), None, {"got": res.i})
+        elif c == 1:
+            with Case(ctx, "eb_set_infty|%s|" % cv.name, {}) as go:
+                if go:
+                    B.eb_fill(self.r, R.poison)
+                    if self.no_error(self.call("eb_set_infty", self.r)):
+                        self.expect(cv, self.r, None)
+        elif c == 2:
+            rep = self.rep_for(cv, d, "P", allow_h=True)
+            with Case(ctx, "eb_copy|%s|%s|%s" % (cv.name, cv.pcls(d), rep), {"P": dshow(d)}) as go:
+                if go:
+                    self.put(cv, self.p, P, rep)
+                    B.eb_fill(self.r, R.poison)
+                    if self.no_error(self.call("eb_copy", self.r, self.p)):
+                        ctx.check(B.eb_get(self.r) == B.eb_get(self.p), ctx.cur_key + "|value")
+        elif c == 3:
+            if rng.random() < 0.1:
+                with Case(ctx, "eb_rand|%s|" % cv.name, {}, nontrivial=False) as go:
+                    if go:
+                        B.eb_fill(self.r, R.poison)
+                        if self.no_error(self.call("eb_rand", self.r)):
+                            got, co, canon, raw = self.get(cv, self.r)
+                            ok = canon and (got is None or (len(got) == 2 and cv.C.on_curve(got) and
+                                                            cv.C.mul(cv.n, got) is None))
+                            ctx.check(ok, ctx.cur_key + "|value", {"got": pshow(got)})
+        elif c == 4:
+            rep = self.rep_for(cv, d, "P")
+            if P is None:
+                return
+            with Case(ctx, "eb_blind|%s|%s|%s" % (cv.name, cv.pcls(d), self.repcls(rep)), {"P": dshow(d)}) as go:
+                if go:
+                    self.put(cv, self.p, P, rep)
+                    B.eb_fill(self.r, R.poison)
+                    if self.no_error(self.call("eb_blind", self.r, self.p)):
+                        self.expect(cv, self.r, P)
+        elif c == 5:
+            x = rng.choice([0, 1, rng.getrandbits(B.m), P[0] if P else 2])
+            F = cv.F
+            with Case(ctx, "eb_rhs|%s|%s" % (cv.name, fcls(x, B.m)), [hx(x)]) as go:
+                if go:
+                    B.fb_put(self.fa, x)
+                    B.fb_fill(self.fc, R.poison)
+                    if self.no_error(self.call("eb_rhs", self.fc, self.fa)):
+                        x2 = F.sqr(x)
+                        exp = F.mul(x2, x) ^ F.mul(cv.a, x2) ^ cv.b
+                        got = B.fb_get(self.fc)
+                        ctx.check(got == exp, ctx.cur_key + "|value", {"got": hx(got), "exp": hx(exp)})
+        else:
+            if cv.kbltz or not self.has("eb_tab") or P is None:
+                return      # the Koblitz tables hold alpha_u * P (tau-adic); exercised through eb_mul_lwnaf
+            w = rng.choice([2, 3, 4, 5, 6])
+            n = 1 << (w - 2)
+            rep = self.rep_for(cv, d, "P")
+            with Case(ctx, "eb_tab|%s|%s|w%d|%s" % (cv.name, cv.pcls(d), w, self.repcls(rep)), {"P": dshow(d)}) as go:
+                if go:
+                    t = B.eb_new(n)
+                    try:
+                        B.eb_fill(t, R.poison, n)
+                        self.put(cv, self.p, P, rep)
+                        if self.no_error(self.call("eb_tab", t, self.p, w)):
+                            for i in range(n):
+                                if not self.expect(cv, t + i * B.ebsz, cv.aff(cv.dmul(2 * i + 1, d))):
+                                    break
+                    finally:
+                        R.free(t)
+
+    def run_curve(self, cv, N):
+        self.make_pool(cv)
+        ops = (["add"] * 10 + ["sub"] * 5 + ["dbl"] * 6 + ["neg"] * 3 + ["hlv"] * 5 + ["frb"] * 3 + ["norm"] * 3 +
+               ["norm_sim"] * 3 + ["cmp"] * 3 + ["on_curve"] * 3 + ["misc"] * 3)
+        rng = self.rng
+        for it in range(N):
+            self.R.poison = rng.randrange(1, 256)
+            op = rng.choice(ops)
+            if op == "add":
+                self.op_addsub(cv)
+            elif op == "sub":
+                self.op_addsub(cv, sub=True)
+            elif op == "dbl":
+                self.op_dbl(cv)
+            elif op == "neg":
+                self.op_neg(cv)
+            elif op == "hlv":
+                self.op_hlv(cv)
+            elif op == "frb":
+                self.op_frb(cv)
+            elif op == "norm":
+                self.op_norm(cv)
+            elif op == "norm_sim":
+                self.op_norm_sim(cv)
+            elif op == "cmp":
+                self.op_cmp(cv)
+            elif op == "on_curve":
+                self.op_on_curve(cv)
+            else:
+                self.op_misc(cv)
+
+
+def open_curves(ctx, R, B):
+    """instantiate every binary curve of this build: [(Cv)]"""
+    out = []
+    with Case(ctx, "eb_param_set|enumerate", {}, nontrivial=False, budget=600) as go:
+        ids = curve_ids(R) if go else []
+    for nm, v in ids:
+        out.append((nm, v))
+    return out
+
+
+def run_curve_part(ctx, R, B):
+    cp = CurvePart(ctx, R, B)
+    ids = open_curves(ctx, R, B)
+    if not ids:
+        raise RuntimeError("no binary curve accepted by eb_param_set in this build")
+    N = ctx.n(2600, 40000)
+    seen = []
+    for nm, v in ids:
+        cv = Cv(R, B, nm, v)
+        seen.append({"curve": nm, "a": hx(cv.a), "b": hx(cv.b), "n": hx(cv.n), "h": cv.h, "koblitz": cv.kbltz})
+        cp.run_curve(cv, N // len(ids))
+    ctx.note("curves", seen)
+    ctx.note("functions_not_built", sorted(cp.not_built))
+    ctx.add("eb_hlv_returned_the_odd_order_half", cp.hlv_exact)
+    ctx.add("eb_hlv_returned_the_other_half_on_cofactor_4", cp.hlv_other)
+
+
 def run(ctx, part):
     R = RT(ctx.cfg)
     B = BX(R)
@@ -847,5 +1487,7 @@ def run(ctx, part):
                                                       "eb_mul", "eb_mul_pre", "eb_mul_fix", "eb_mul_sim")})
     if part == "field":
         run_field_part(ctx, R, B)
+    elif part == "curve":
+        run_curve_part(ctx, R, B)
     ctx.note("functions_exercised", sorted(R.fn_seen))
     ctx.note("error_codes_seen", {str(k): v for k, v in R.err_codes.items()})
